@@ -15,6 +15,7 @@ import copy
 import io
 import pickle
 import struct
+from datetime import datetime, timedelta, timezone
 from typing import Any, Callable, Dict, List, Optional, Tuple
 
 from . import repo  # noqa: F401
@@ -110,9 +111,26 @@ SINK_PLAIN = [
     ("id", [(_const(3), wire.f_varint(6, 3), "3")]),
     ("tags", [(lambda: ["t"], wire.f_len(9, b"t"), ["t"])]),
 ]
+_EPOCH = datetime(1970, 1, 1, tzinfo=timezone.utc)
+EXOTIC_MEMBERS = [
+    # well-known types, a field-less message and a scalar side by side in one group
+    Member("k_ts", 8, "kind", [(_const(_EPOCH), wire.f_len(8, b""), "1970-01-01T00:00:00Z"),
+                               (_const(_EPOCH + timedelta(seconds=1)), wire.f_len(8, wire.f_varint(1, 1)), "1970-01-01T00:00:01Z"),
+                               (_const(_EPOCH + timedelta(microseconds=5)), wire.f_len(8, wire.f_varint(2, 5000)), "1970-01-01T00:00:00.000005Z")]),
+    Member("k_dur", 9, "kind", [(_const(timedelta(0)), wire.f_len(9, b""), "0.000s"),
+                                (_const(timedelta(seconds=2)), wire.f_len(9, wire.f_varint(1, 2)), "2.000s")]),
+    Member("k_void", 10, "kind", [(_mk(Empty), wire.f_len(10, b""), {})]),
+    Member("k_uint", 11, "kind", [(_const(0), wire.f_varint(11, 0), "0"), (_const(7), wire.f_varint(11, 7), "7"),
+                                  (_const(2**64 - 1), wire.f_varint(11, 2**64 - 1), str(2**64 - 1))]),
+]
+EXOTIC_PLAIN = [
+    ("last", [(_const(9), wire.f_varint(536870911, 9), 9)]),
+    ("r_void", [(lambda: [Empty()], wire.f_len(15, b""), [{}])]),
+    ("w_uint32", [(_const(0), wire.f_len(6, b""), 0), (_const(3), wire.f_len(6, wire.f_varint(1, 3)), 3)]),
+]
 UNKNOWN = [wire.f_varint(999, 1), wire.f_len(998, b"\x08\x05"), wire.f_i32(997, b"abcd")]
 
-SPECS = {Oneofs: (ONEOFS_MEMBERS, ONEOFS_PLAIN), Sink: (SINK_MEMBERS, SINK_PLAIN)}
+SPECS = {Oneofs: (ONEOFS_MEMBERS, ONEOFS_PLAIN), Sink: (SINK_MEMBERS, SINK_PLAIN), schemas.Exotic: (EXOTIC_MEMBERS, EXOTIC_PLAIN)}
 
 
 class _Any:
@@ -125,7 +143,8 @@ ANY = _Any()
 
 
 def _is_msg(mem) -> bool:
-    return isinstance(mem.variants[0][0](), betterproto.Message)
+    # a message on the wire: betterproto messages and the well-known types rendered as datetime / timedelta
+    return isinstance(mem.variants[0][0](), (betterproto.Message, datetime, timedelta))
 
 
 def _harness_origin(e: BaseException) -> bool:
@@ -168,7 +187,7 @@ class FaultyStream:
 class _OneofRun:
     def __init__(self, tape, trace, stats):
         self.tape, self.trace, self.stats = tape, trace, stats
-        self.cls = tape.choice([Oneofs, Oneofs, Sink], "cls")
+        self.cls = tape.choice([Oneofs, Oneofs, Sink, schemas.Exotic], "cls")
         self.members, self.plain = SPECS[self.cls]
         self.by_name = {m.name: m for m in self.members}
         self.groups: Dict[str, List[Member]] = {}
@@ -229,7 +248,7 @@ class _OneofRun:
                 continue
             if kind == 0:
                 mem, k = self._draw_member_variant("occ-member")
-                if isinstance(mem.variants[0][0](), betterproto.Message):
+                if _is_msg(mem):
                     if mem.name in seen_msg:
                         continue           # repeated message-typed member: merge semantics, a C01/C02 matter
                     seen_msg.add(mem.name)
